@@ -7,41 +7,62 @@ import "github.com/compose-spec/compose-go/v2/types"
 // project environment and earlier lines; labels are layered the same way.
 func VerifC16Env() {
 	w := vrtRoot() + "/w"
-	v := vrtString("v", vrtParam("VL", 1), "ab")
+	// every layer's value is a symbolic string of length 0..VL over its own alphabet, so "present but empty"
+	// is one of the cases the solver decides at every layer
+	L := vrtParam("VL", 1)
+	var pe, v1, v2, ev string
 	inPE := vrtChoice("inProjectEnv", 2) == 1
 	in1 := vrtChoice("inFile1", 2) == 1
 	in2 := vrtChoice("inFile2", 2) == 1
-	mode := vrtChoice("environment", 4) // 0 none, 1 value, 2 valueless, 3 empty
-	env := types.Mapping{"PEV": "pev" + v, "EMPTYP": ""}
+	mode := vrtChoice("environment", 3) // 0 none, 1 value (possibly empty), 2 valueless
 	if inPE {
-		env["K"] = "pe" + v
+		pe = vrtString("projectEnvK", L, "ab")
 	}
-	f1 := "A=a1" + v + "\n"
 	if in1 {
-		f1 += "K=f1" + v + "\n"
+		v1 = vrtString("file1K", L, "cd")
 	}
-	// EMPTYP is defined (empty) in the project environment and redefined on an earlier line: the outer value wins
-	f2 := "R=${A}-${PEV}-${B}\nEMPTYP=line\nQ=<${EMPTYP}>\n"
 	if in2 {
-		f2 = "K=f2" + v + "\nB=line\n" + f2
+		v2 = vrtString("file2K", L, "ef")
+	}
+	if mode == 1 {
+		ev = vrtString("environmentK", L, "gh")
+	}
+	va := vrtString("file1A", L, "ij")
+	vp := vrtString("projectEnvPEV", L, "kl")
+	vo := vrtString("projectEnvOUTER", L, "mn")
+	env := types.Mapping{"PEV": vp, "OUTER": vo}
+	if inPE {
+		env["K"] = pe
+	}
+	f1 := "A=" + va + "\n"
+	if in1 {
+		f1 += "K=" + v1 + "\n"
+	}
+	// OUTER is defined (possibly empty) in the project environment and redefined on an earlier line: the outer value wins
+	f2 := "R=${A}-${PEV}-${B}\nOUTER=line\nQ=<${OUTER}>\n"
+	if in2 {
+		f2 = "K=" + v2 + "\nB=line\n" + f2
 	} else {
 		f2 = "B=line\n" + f2
 	}
 	vrtFile(w+"/one.env", f1)
-	vrtFile(w+"/alt.env", "A=alt"+v+"\n")
-	present2 := vrtChoice("file2Present", 2) == 1
-	required2 := vrtChoice("file2Required", 2) == 1
+	vrtFile(w+"/alt.env", "A=alt\n")
+	present2 := !in2 && vrtChoice("file2Present", 2) == 0
+	present2 = !present2
+	required2 := present2 || vrtChoice("file2Required", 2) == 1
 	if present2 {
 		vrtFile(w+"/two.env", f2)
 	}
 	var envAttr any
 	switch mode {
 	case 1:
-		envAttr = []any{"K=ev" + v}
+		if vrtChoice("environmentSyntax", 2) == 1 {
+			envAttr = map[string]any{"K": ev}
+		} else {
+			envAttr = []any{"K=" + ev}
+		}
 	case 2:
 		envAttr = []any{"K"}
-	case 3:
-		envAttr = []any{"K="}
 	}
 	mk := func(first string) map[string]any {
 		s := map[string]any{"image": "i", "env_file": []any{first, map[string]any{"path": "two.env", "required": required2}}}
@@ -51,7 +72,7 @@ func VerifC16Env() {
 		return s
 	}
 	doc := map[string]any{"services": map[string]any{"s": mk("one.env"), "t": mk("alt.env")}}
-	discard := vrtChoice("discard", 2) == 1
+	discard := vrtParam("DISCARD", 0) == 1
 	p, err := tcLoadProject(env, func(o *Options) {
 		if discard {
 			WithDiscardEnvFiles(o)
@@ -82,21 +103,19 @@ func VerifC16Env() {
 		str := func(x string) *string { return &x }
 		switch mode {
 		case 1:
-			want = str("ev" + v)
-		case 3:
-			want = str("")
+			want = str(ev)
 		case 2:
 			if inPE {
-				want = str("pe" + v)
+				want = str(pe)
 			} else {
 				want = nil
 			}
 		case 0:
 			switch {
 			case in2:
-				want = str("f2" + v)
+				want = str(v2)
 			case has1:
-				want = str("f1" + v)
+				want = str(v1)
 			default:
 				wantPresent = false
 			}
@@ -111,18 +130,18 @@ func VerifC16Env() {
 			}
 		}
 		if present2 {
-			a := "a1" + v
+			a := va
 			if name == "t" {
-				a = "alt" + v
+				a = "alt"
 			}
 			r, okr := e["R"]
 			vrtAssert("reference-present", okr && r != nil)
 			if okr && r != nil {
 				vrtObserve("R-"+name, *r)
-				vrtAssert("reference-earlier-file-project-env-earlier-line", *r == a+"-pev"+v+"-line")
+				vrtAssert("reference-earlier-file-project-env-earlier-line", *r == a+"-"+vp+"-line")
 			}
 			q, okq := e["Q"]
-			vrtAssert("empty-outer-value-beats-earlier-line", okq && q != nil && *q == "<>")
+			vrtAssert("outer-value-beats-earlier-line", okq && q != nil && *q == "<"+vo+">")
 		}
 		if discard {
 			vrtAssert("discard-removes-file-references", len(svc.EnvFiles) == 0)
@@ -134,16 +153,20 @@ func VerifC16Env() {
 
 func VerifC16Labels() {
 	w := vrtRoot() + "/w"
-	v := vrtString("v", vrtParam("VL", 1), "ab")
+	L := vrtParam("VL", 1)
+	va := vrtString("file1A", L, "ab")
+	l1 := vrtString("file1L", L, "cd")
+	l2 := vrtString("file2L", L, "ef")
+	own := vrtString("labelsL", L, "gh")
 	in1 := vrtChoice("inFile1", 2) == 1
 	in2 := vrtChoice("inFile2", 2) == 1
 	inLabels := vrtChoice("inLabels", 2) == 1
-	f1, f2 := "A=a"+v+"\n", "R=${A}\n"
+	f1, f2 := "A="+va+"\n", "R=${A}\n"
 	if in1 {
-		f1 += "L=l1" + v + "\n"
+		f1 += "L=" + l1 + "\n"
 	}
 	if in2 {
-		f2 += "L=l2" + v + "\n"
+		f2 += "L=" + l2 + "\n"
 	}
 	vrtFile(w+"/l1.env", f1)
 	present2 := vrtChoice("file2Present", 2) == 1
@@ -152,7 +175,7 @@ func VerifC16Labels() {
 	}
 	s := map[string]any{"image": "i", "label_file": []any{"l1.env", "l2.env"}}
 	if inLabels {
-		s["labels"] = map[string]any{"L": "own" + v}
+		s["labels"] = map[string]any{"L": own}
 	}
 	p, err := tcLoadProject(nil, nil, map[string]any{"services": map[string]any{"s": s}})
 	vrtObserve("err", err != nil)
@@ -168,11 +191,11 @@ func VerifC16Labels() {
 	want, set := "", true
 	switch {
 	case inLabels:
-		want = "own" + v
+		want = own
 	case in2:
-		want = "l2" + v
+		want = l2
 	case in1:
-		want = "l1" + v
+		want = l1
 	default:
 		set = false
 	}
@@ -180,5 +203,5 @@ func VerifC16Labels() {
 	vrtObserve("L", got)
 	vrtAssert("label-presence", ok == set)
 	vrtAssert("label-layering", got == want)
-	vrtAssert("label-reference-earlier-file", l["R"] == "a"+v)
+	vrtAssert("label-reference-earlier-file", l["R"] == va)
 }
